@@ -560,6 +560,31 @@ def ref_to(case: dict, i_from: int | None, j: int, kind: str = "ref") -> str:
     return f"{file_part}#/{cont_of(case, j)}/{case['keys'][j]}" + (f"/properties/sub{j}" if kind == "deep" else "")
 
 
+def chain_info(case: dict) -> tuple[set, set]:
+    """(definitions that get the entry member e{k}, extras objects reachable from them).
+    Only chain heads (never the target of a chain edge) get an entry, so the other objects are reachable
+    only through objects that are themselves found by reference; a pure cycle gets one entry."""
+    ch = [(i, j) for i, j, k in case["edges"] if k == "chain"]
+    nodes = {k for e in ch for k in e}
+    entries = {i for i in nodes if all(j != i for _, j in ch)} or ({min(nodes)} if nodes else set())
+    reach, todo = set(), list(entries)
+    while todo:
+        k = todo.pop()
+        if k not in reach:
+            reach.add(k)
+            todo += [j for i, j in ch if i == k]
+    for k in sorted(nodes - reach):  # components that are pure cycles
+        if k not in reach:
+            entries.add(k)
+            todo = [k]
+            while todo:
+                x = todo.pop()
+                if x not in reach:
+                    reach.add(x)
+                    todo += [j for i, j in ch if i == x]
+    return entries, reach
+
+
 def build_e2e_doc(case: dict) -> tuple[typing.Any, str]:
     """case = {container, keys (document order), edges [[i, j, 'ref'|'array'|'deep'|'anchor']], root_refs [i…],
     files (optional: 0 = main.json, 1 = other.json per definition),
@@ -577,13 +602,24 @@ def build_e2e_doc(case: dict) -> tuple[typing.Any, str]:
     def schema(j: int) -> dict:
         return defs[files[j]][cont_of(case, j)][keys[j]]
 
+    extras: dict = {}
+
     for i, j, kind in case["edges"]:
         props = schema(i)["properties"]
         if kind == "array":
             props[f"a{i}to{j}"] = {"type": "array", "items": {"$ref": ref_to(case, i, j)}}
         elif kind == "deep":
-            schema(j)["properties"][f"sub{j}"] = {"type": "object", "properties": {f"mkd{j}x": {"type": "integer"}}}
+            schema(j)["properties"].setdefault(f"sub{j}", {"type": "object", "properties": {f"mkd{j}x": {"type": "integer"}}})
             props[f"d{i}to{j}"] = {"$ref": ref_to(case, i, j, "deep")}
+        elif kind == "chain":
+            # objects outside every definitions container (`#/extras/s{k}`), reachable only through
+            # references: s{i} points at s{j}, so s{j} is discovered while the reserved-reference
+            # work list is being processed (several rounds for a chain)
+            for k in (i, j):
+                extras.setdefault(f"s{k}", {"type": "object", "properties": {f"mke{k}x": {"type": "integer"}}})
+                if k in chain_info(case)[0]:
+                    schema(k)["properties"][f"e{k}"] = {"$ref": f"#/extras/s{k}"}
+            extras[f"s{i}"]["properties"][f"c{i}to{j}"] = {"$ref": f"#/extras/s{j}"}
         else:
             if kind == "anchor" and files[i] == files[j]:
                 schema(j)["$id"] = f"#anc{j}"
@@ -594,6 +630,8 @@ def build_e2e_doc(case: dict) -> tuple[typing.Any, str]:
     for i in case["root_refs"]:
         props[f"rRto{i}"] = {"$ref": ref_to(case, None, i)}
     main = {"title": "RootDoc", "type": "object", "properties": props, **defs[0]}
+    if extras:
+        main["extras"] = extras
     if 1 in files:
         return {"main.json": main, "other.json": dict(defs[1])}, "jsonschema"
     return main, "jsonschema"
@@ -748,11 +786,12 @@ def e2e_oracle(ck: Check, camp, case: dict) -> bool:
     if len(set(owner.values())) != n:
         return fail("merged_or_duplicated", f"two definitions share a class: {owner}")
     subs = {j for _, j, kind in case["edges"] if kind == "deep"}
+    extras = {k for i, j, kind in case["edges"] if kind == "chain" for k in (i, j)}
     # a nested object referenced by pointer may be emitted twice (inline + by reference): not a named schema
-    if not expected + len(subs) <= len(table) <= expected + 2 * len(subs):
-        return fail("extra_class", f"{len(table)} top-level classes for {n} definitions (+{len(subs)} nested): {names}")
+    if not expected + len(subs) + len(extras) <= len(table) <= expected + 2 * len(subs) + len(extras):
+        return fail("extra_class", f"{len(table)} top-level classes for {n} definitions (+{len(subs)} nested, +{len(extras)} outside the container): {names}")
     members = dict(table)
-    checks = [(owner[i], (f"a{i}to{j}" if kind == "array" else f"r{i}to{j}"), j) for i, j, kind in case["edges"] if kind != "deep"]
+    checks = [(owner[i], (f"a{i}to{j}" if kind == "array" else f"r{i}to{j}"), j) for i, j, kind in case["edges"] if kind not in ("deep", "chain")]
     checks = list(dict.fromkeys(checks))
     for i, j, kind in case["edges"]:
         if kind == "deep":
@@ -760,6 +799,16 @@ def e2e_oracle(ck: Check, camp, case: dict) -> bool:
             leaves = [x for x in (ann_leaves(ann) if ann is not None else []) if x != "None" and x not in WRAPPERS]
             if len(leaves) != 1 or f"mkd{j}x" not in members.get(leaves[0], {}):
                 return fail("ref_mislanded", f"{owner[i]}.d{i}to{j}: {ast.unparse(ann) if ann is not None else None} should name a class with member mkd{j}x")
+        if kind == "chain":
+            hold = {k: [c for c, ms in table if f"mke{k}x" in ms] for k in (i, j)}
+            if any(len(h) != 1 for h in hold.values()):
+                return fail("missing_class", f"objects #/extras/s{i}, #/extras/s{j}: classes carrying their markers: {hold}; classes: {names}")
+            links = [(hold[i][0], f"c{i}to{j}", hold[j][0])] + [(owner[k], f"e{k}", hold[k][0]) for k in (i, j) if k in chain_info(case)[0]]
+            for cls, member, target in links:
+                ann = members[cls].get(member)
+                leaves = [x for x in (ann_leaves(ann) if ann is not None else []) if x != "None" and x not in WRAPPERS]
+                if leaves != [target]:
+                    return fail("ref_mislanded", f"{cls}.{member}: {ast.unparse(ann) if ann is not None else None} should name {target}")
     if ift == "jsonschema":
         root_cls = [c for c, ms in table if "mkrootx" in ms]
         if len(root_cls) != 1:
@@ -808,7 +857,7 @@ def gen_e2e_case(rng: Rng) -> dict:
     for i in range(n):
         for j in range(n):
             if rng.chance(1, 3):
-                edges.append([i, j, rng.choice(["ref", "ref", "ref", "ref", "array", "deep", "anchor"])])
+                edges.append([i, j, rng.choice(["ref", "ref", "ref", "ref", "array", "deep", "anchor", "chain"])])
     if not any(i == j for i, j, _ in edges) and rng.chance(1, 2):
         edges.append([0, 0, "ref"])
     case = {
@@ -818,13 +867,14 @@ def gen_e2e_case(rng: Rng) -> dict:
         "root_refs": [i for i in range(n) if rng.chance(1, 2)],
         "model": rng.choice(["pydantic_v2.BaseModel"] * 5 + ["pydantic.BaseModel", "dataclasses.dataclass", "typing.TypedDict"]),
     }
-    if cont == "components/schemas":  # OpenAPI 3.0 schema objects have no `$id`: no anchors there
-        case["edges"] = [[i, j, "ref" if k == "anchor" else k] for i, j, k in edges]
+    if cont == "components/schemas":  # OpenAPI 3.0 schema objects have no `$id`: no anchors there; no `#/extras`
+        case["edges"] = [[i, j, "ref" if k in ("anchor", "chain") else k] for i, j, k in edges]
     if case["container"] != "components/schemas" and rng.chance(1, 4):
         # cross-file: some definitions live in other.json; only what main.json reaches is generated,
         # so the root object references every definition
         case["files"] = [rng.below(2) for _ in range(n)]
         case["root_refs"] = list(range(n))
+        case["edges"] = [[i, j, "ref" if k == "chain" else k] for i, j, k in case["edges"]]
     elif case["container"] != "components/schemas" and rng.chance(1, 8):
         # a document with `definitions` AND `$defs`
         case["containers"] = [rng.choice(["definitions", "$defs"]) for _ in range(n)]
@@ -838,6 +888,8 @@ E2E_CORPUS = [
     {"container": "$defs", "keys": ["Optional", "BaseModel", "Pet"], "edges": [[0, 1, "ref"], [1, 0, "ref"]], "root_refs": [0, 1, 2]},
     {"container": "components/schemas", "keys": ["Pet", "pet", "PetModel"], "edges": [[0, 1, "ref"], [1, 2, "ref"], [2, 0, "array"]], "root_refs": []},
     {"container": "definitions", "keys": ["Pet", "pet"], "edges": [[0, 1, "deep"], [1, 1, "ref"]], "root_refs": [0]},
+    {"container": "definitions", "keys": ["Pet", "pet", "Pet_", "PetsItem"], "edges": [[0, 1, "chain"], [1, 2, "chain"], [2, 3, "chain"], [3, 3, "deep"]], "root_refs": []},
+    {"container": "$defs", "keys": ["Pets-item", "Pet", "pet"], "edges": [[2, 1, "chain"], [1, 0, "chain"], [0, 2, "chain"]], "root_refs": [2]},
     {"container": "definitions", "keys": ["Pet", "pet", "Pet_"], "edges": [[0, 1, "ref"], [1, 2, "ref"], [2, 0, "ref"]], "root_refs": [0, 1, 2], "files": [1, 1, 0]},
     {"container": "definitions", "keys": ["Pet", "pet"], "edges": [[0, 1, "anchor"], [1, 0, "anchor"]], "root_refs": [1]},
     {"container": "definitions", "keys": ["Pet", "Dog"], "edges": [], "root_refs": [], "containers": ["definitions", "$defs"]},
@@ -891,6 +943,90 @@ def campaign_e2e_exhaustive(ck: Check, keys_pool: list[str], max_defs: int, labe
                     if len(ck.failures) > 20:
                         camp.wall_s = time.time() - t0
                         return
+    camp.wall_s = time.time() - t0
+
+
+# ------------------------------------------------------------------ reserved-reference work list
+def worklist_graph(case: dict) -> tuple[list, list, list]:
+    """(rows [(pointer, [references written inside it])], root refs, definition pointers in document order)
+    of a single-file JSON-Schema e2e document without nested-pointer ('deep') edges."""
+    keys = case["keys"]
+    ptr = [f"#/{cont_of(case, i)}/{k}" for i, k in enumerate(keys)]
+    refs: dict[str, list[str]] = {p: [] for p in ptr}
+    extras: dict[str, list[str]] = {}
+    entries = chain_info(case)[0]
+    for i, j, kind in case["edges"]:
+        if kind == "chain":
+            for k in (i, j):
+                if f"#/extras/s{k}" not in extras:
+                    extras[f"#/extras/s{k}"] = []
+                    if k in entries:
+                        refs[ptr[k]].append(f"#/extras/s{k}")
+            extras[f"#/extras/s{i}"].append(f"#/extras/s{j}")
+        else:
+            refs[ptr[i]].append(ptr[j])
+    rows = [[p, r] for p, r in refs.items()] + [[p, r] for p, r in extras.items()]
+    return rows, [ptr[i] for i in case["root_refs"]], ptr
+
+
+def real_worklist(case: dict):
+    from datamodel_code_generator.parser.jsonschema import JsonSchemaParser
+
+    doc, _ = build_e2e_doc(case)
+    with watchdog(20.0):
+        parser = JsonSchemaParser(json.dumps(doc))
+        parser.parse_raw()
+    reserved = sorted(set().union(*parser.reserved_refs.values())) if parser.reserved_refs else []
+    loaded = sorted(p for p, r in parser.model_resolver.references.items() if r.loaded)
+    return reserved, loaded
+
+
+def campaign_worklist(ck: Check, n: int) -> None:
+    camp = ck.campaign("worklist model (prelude + loop, fuel |pointers|+1) vs JsonSchemaParser.parse_raw: reserved set and loaded pointers")
+    t0 = time.time()
+    rng = ck.rng.fork("worklist")
+    cases = [c for c in E2E_CORPUS if "files" not in c and "containers" not in c and c["container"] != "components/schemas" and all(k != "deep" for _, _, k in c["edges"])]
+    while len(cases) < n:
+        c = gen_e2e_case(rng)
+        if "files" in c or "containers" in c or c["container"] == "components/schemas":
+            continue
+        c["edges"] = [[i, j, "chain" if k == "deep" else k] for i, j, k in c["edges"]]
+        cases.append(c)
+    reqs = []
+    for c in cases:
+        rows, rr, defs = worklist_graph(c)
+        reqs.append(f"res.worklist ({' '.join('(' + hx(p) + ' ' + enc_strs(r) + ')' for p, r in rows)}) {enc_strs(rr)} {enc_strs(defs)}")
+    replies = ck.driver.run(reqs)
+    for c, rep in zip(cases, replies):
+        camp.evaluations += 1
+        rows, _, _ = worklist_graph(c)
+        universe = {p for p, _ in rows} | {"#"}
+        try:
+            reserved, loaded = real_worklist(c)
+            real = ("ok", reserved, sorted(set(loaded) & universe))
+        except Hang:
+            real = "outoffuel"
+        except Exception as ex:  # noqa: BLE001
+            real = f"exc:{type(ex).__name__}"
+        if rep.startswith("ok "):
+            a, b = sx_parse(rep[3:])
+            model = ("ok", sorted(unhx(x) for x in a), sorted(set(unhx(x) for x in b) & universe))
+        else:
+            model = rep
+        chain = sum(1 for _, _, k in c["edges"] if k == "chain")
+        camp.hit(f"chain-edges:{min(chain, 4)}")
+        if isinstance(real, tuple):
+            camp.hit(f"reserved:{min(len(real[1]), 6)}")
+            if real[1]:
+                camp.distinct.add(json.dumps(c, sort_keys=True))
+            # worklist_complete stated on the implementation itself
+            missing = [r for r in real[1] if r not in loaded]
+            if missing:
+                ck.fail({"oracle": "worklist_complete", "mechanism": "reserved_not_loaded"}, c, f"reserved but never loaded: {missing}")
+        if model != real:
+            ck.disagree(camp, c, model, real)
+        elif len(camp.samples) < 2 and chain:
+            camp.samples.append({"case": c, "reserved": real[1] if isinstance(real, tuple) else real})
     camp.wall_s = time.time() - t0
 
 
@@ -965,11 +1101,13 @@ def run(ck: Check) -> None:
         "resolveRef": "distinct (root, ref) that resolve (no exception) on the real class",
         "uniqueName": "distinct cases in which a suffix had to be appended",
         "modpass": "distinct cases in which the pass renamed at least one class",
+        "worklist": "distinct documents whose parse reserved at least one pointer",
         "e2e": "distinct documents (keys in order, edges, container, kind) on which the oracle passed; failures matching a known finding are counted in known_finding_hits_in_campaigns",
     }
     campaign_sequences(ck, 400 if quick else 3000)
     campaign_functions(ck, 300 if quick else 3000)
     campaign_modpass(ck, 300 if quick else 3000)
+    campaign_worklist(ck, 120 if quick else 1200)
     campaign_e2e(ck, 100 if quick else 600)
     if not quick:
         campaign_e2e_exhaustive(ck, CORE_KEYS, 4, "")
